@@ -51,7 +51,7 @@ BASES = ["chain", "chain3", "param", "param_bspline", "twostage", "discrete", "a
 FAULTS = {
     "missing_der": (["chain", "chain3", "param", "twostage"], [0, 1, 2], False),
     "missing_next": (["discrete"], [0, 1], False),
-    "missing_der_quad": (["chain", "param", "twostage"], [0], True),     # a user quadrature state without its set_der
+    "missing_der_quad": (["chain", "param", "twostage", "discrete"], [0], True),     # a user quadrature state without its set_der
     "missing_value_global": (["param", "param_bspline", "twostage"], [0, 1], False),
     "missing_value_interval": (["param", "param_bspline"], [0], False),
     "missing_method": (["chain", "twostage", "autonomous", "controlonly"], [0, 1], False),
